@@ -20,12 +20,21 @@
 (*   Subscribe(c, S, off)  the instruments of the markets S are subscribed;*)
 (*                         instrument of market m has key KeyOf(m, off)    *)
 (*                         -> subs : market -|-> instrument key            *)
+(*                         Subscribe(c, S, off, d, dk): market d of S is   *)
+(*                         subscribed TWICE in a row (dk = 1: the same     *)
+(*                         instrument again; dk = 2: a second instrument,  *)
+(*                         key NMarkets+1, that resolves to the same       *)
+(*                         market).  For d either key is acceptable; every *)
+(*                         other market maps to exactly its own key.       *)
 (*   Message(m, fs)        the venue sends one data message about market m *)
 (*                         carrying the items fs (price, amount, side,     *)
 (*                         time);  m subscribed  -> one event per item,    *)
 (*                         each with key subs[m], the route's exchange id  *)
 (*                         and the item's fields;  m not subscribed -> one *)
 (*                         unidentifiable-subscription error, no event.    *)
+(*                         buf = TRUE: the message arrived during          *)
+(*                         subscription validation and is replayed through *)
+(*                         process_buffered_events - same outcome.         *)
 (*   Disconnect            the connection ends (a new one re-subscribes).  *)
 (*                                                                         *)
 (* Markets are abstract (1..NMarkets); the harness concretises them per    *)
@@ -50,10 +59,13 @@ CONSTANTS NMarkets,   \* size of the market universe
           Conns,      \* the routes explored by this model (subset of Routes)
           KeyOffs,    \* key assignments: key of market m is KeyOf(m, off)
           PRICE, AMOUNT, TIME,   \* tiny value domains (positive naturals)
-          MaxBatch    \* items per venue message: 1..MaxBatch (at most 3)
+          MaxBatch,   \* items per venue message: 1..MaxBatch (at most 3)
+          DupKinds    \* subset of {0, 1, 2}: 0 no repeated market, 1 the same instrument twice,
+                      \* 2 two instruments (distinct keys) under one market
 
 VARIABLES conn,   \* the connected route, or NoConn
-          subs,   \* [subscribed markets -> instrument key]
+          subs,   \* [subscribed markets -> set of acceptable instrument keys] (a singleton
+                  \* unless two instruments were subscribed under the market)
           out,    \* what the last step produced: sequence of Ev / Unid records
           last    \* the step itself (observation only)
 
@@ -137,7 +149,7 @@ AmountsAllowed(c, f) == IF c \in SignOpen /\ f.s = "sell" THEN {f.a, 0 - f.a} EL
 TimeExpected(c, f)   == IF c \in NoTime THEN 0 ELSE f.t
 
 \* the events a subscribed item may become
-EventsOf(c, key, f) == {Ev(key, c[1], f.p, a, f.s, TimeExpected(c, f)) : a \in AmountsAllowed(c, f)}
+EventsOf(c, keys, f) == {Ev(key, c[1], f.p, a, f.s, TimeExpected(c, f)) : key \in keys, a \in AmountsAllowed(c, f)}
 
 \* is `o` an allowed outcome of a message about market m with items fs ?
 OutOK(c, sb, m, fs, o) ==
@@ -155,36 +167,42 @@ AllowedOut(c, sb, m, fs) ==
 (***************************************************************************)
 (* Steps                                                                   *)
 (***************************************************************************)
-Step(a, c, S, off, m, fs) == [a |-> a, c |-> c, S |-> S, off |-> off, m |-> m, fs |-> fs]
-NoStep == Step("Init", NoConn, {}, 0, 0, <<>>)
+Step(a, c, S, off, d, dk, m, fs, buf) ==
+  [a |-> a, c |-> c, S |-> S, off |-> off, d |-> d, dk |-> dk, m |-> m, fs |-> fs, buf |-> buf]
+NoStep == Step("Init", NoConn, {}, 0, 0, 0, 0, <<>>, FALSE)
+
+\* the second instrument subscribed under a repeated market has a key of its own
+DupKey == NMarkets + 1
+KeysOf(m, off, d, dk) == IF m = d /\ dk = 2 THEN {KeyOf(m, off), DupKey} ELSE {KeyOf(m, off)}
 
 Init == /\ conn = NoConn
         /\ subs = EmptyFn
         /\ out = <<>>
         /\ last = NoStep
 
-SubscribeA(c, S, off) ==
+SubscribeA(c, S, off, d, dk) ==
   /\ conn = NoConn
   /\ c \in Conns /\ S \subseteq Markets /\ off \in KeyOffs
+  /\ dk \in DupKinds /\ (IF dk = 0 THEN d = 0 ELSE d \in S)
   /\ conn' = c
-  /\ subs' = [m \in S |-> KeyOf(m, off)]
+  /\ subs' = [m \in S |-> KeysOf(m, off, d, dk)]
   /\ out' = <<>>
-  /\ last' = Step("Subscribe", c, S, off, 0, <<>>)
+  /\ last' = Step("Subscribe", c, S, off, d, dk, 0, <<>>, FALSE)
 
-MessageSubscribedA(m, fs) ==
+MessageSubscribedA(m, fs, buf) ==
   /\ conn # NoConn
   /\ \A i \in DOMAIN fs : fs[i].s \in SidesOf(conn)
   /\ m \in DOMAIN subs
   /\ out' \in AllowedOut(conn, subs, m, fs)
-  /\ last' = Step("Message", conn, {}, 0, m, fs)
+  /\ last' = Step("Message", conn, {}, 0, 0, 0, m, fs, buf)
   /\ UNCHANGED <<conn, subs>>
 
-MessageUnsubscribedA(m, fs) ==
+MessageUnsubscribedA(m, fs, buf) ==
   /\ conn # NoConn
   /\ \A i \in DOMAIN fs : fs[i].s \in SidesOf(conn)
   /\ m \in Markets \ DOMAIN subs
   /\ out' \in AllowedOut(conn, subs, m, fs)
-  /\ last' = Step("Message", conn, {}, 0, m, fs)
+  /\ last' = Step("Message", conn, {}, 0, 0, 0, m, fs, buf)
   /\ UNCHANGED <<conn, subs>>
 
 DisconnectA ==
@@ -192,11 +210,12 @@ DisconnectA ==
   /\ conn' = NoConn
   /\ subs' = EmptyFn
   /\ out' = <<>>
-  /\ last' = Step("Disconnect", conn, {}, 0, 0, <<>>)
+  /\ last' = Step("Disconnect", conn, {}, 0, 0, 0, 0, <<>>, FALSE)
 
-Subscribe           == \E c \in Conns, S \in SUBSET Markets, off \in KeyOffs : SubscribeA(c, S, off)
-MessageSubscribed   == \E m \in Markets, fs \in Batches(conn) : MessageSubscribedA(m, fs)
-MessageUnsubscribed == \E m \in Markets, fs \in Batches(conn) : MessageUnsubscribedA(m, fs)
+Subscribe           == \E c \in Conns, S \in SUBSET Markets, off \in KeyOffs, d \in 0..NMarkets, dk \in DupKinds :
+                           SubscribeA(c, S, off, d, dk)
+MessageSubscribed   == \E m \in Markets, fs \in Batches(conn), buf \in BOOLEAN : MessageSubscribedA(m, fs, buf)
+MessageUnsubscribed == \E m \in Markets, fs \in Batches(conn), buf \in BOOLEAN : MessageUnsubscribedA(m, fs, buf)
 Disconnect          == DisconnectA
 
 Next == Subscribe \/ MessageSubscribed \/ MessageUnsubscribed \/ Disconnect
@@ -205,10 +224,10 @@ Spec == Init /\ [][Next]_vars
 
 \* one step given as a record (used by the generator and by trace validation)
 Apply(e) ==
-  CASE e.a = "Subscribe"  -> SubscribeA(e.c, e.S, e.off)
+  CASE e.a = "Subscribe"  -> SubscribeA(e.c, e.S, e.off, e.d, e.dk)
     [] e.a = "Message"    -> /\ e.c = conn
                              /\ e.m \in Markets
-                             /\ (MessageSubscribedA(e.m, e.fs) \/ MessageUnsubscribedA(e.m, e.fs))
+                             /\ (MessageSubscribedA(e.m, e.fs, e.buf) \/ MessageUnsubscribedA(e.m, e.fs, e.buf))
     [] e.a = "Disconnect" -> e.c = conn /\ DisconnectA
     [] OTHER              -> FALSE
 
@@ -218,11 +237,11 @@ Apply(e) ==
 TypeOK ==
   /\ conn \in Conns \cup {NoConn}
   /\ DOMAIN subs \subseteq Markets
-  /\ \A m \in DOMAIN subs : subs[m] \in Markets
+  /\ \A m \in DOMAIN subs : subs[m] # {} /\ subs[m] \subseteq 1..DupKey
   /\ (conn = NoConn => subs = EmptyFn)
 
 \* distinct subscribed markets are distinct instruments
-KeysDistinct == \A m1, m2 \in DOMAIN subs : subs[m1] = subs[m2] => m1 = m2
+KeysDistinct == \A m1, m2 \in DOMAIN subs : subs[m1] \cap subs[m2] # {} => m1 = m2
 
 IsMessage == last'.a = "Message"
 
@@ -232,8 +251,8 @@ AttributionA ==
   \A i \in DOMAIN out' : out'[i].k = "ev" =>
       /\ IsMessage
       /\ last'.m \in DOMAIN subs
-      /\ out'[i].key = subs[last'.m]
-      /\ \A m2 \in DOMAIN subs : m2 # last'.m => out'[i].key # subs[m2]
+      /\ out'[i].key \in subs[last'.m]
+      /\ \A m2 \in DOMAIN subs : m2 # last'.m => out'[i].key \notin subs[m2]
       /\ out'[i].ex = conn[1]
 
 \* a message for a market that was not subscribed: an unidentifiable error, never an event
